@@ -2,7 +2,8 @@
    the model, which are tied to src/cl03/sigma_protocols.rs by the constants regenerated on every run (requests_tied) and
    by the draw-request correspondence (every logged draw's bit length must equal the model's request). *)
 From ZK Require Import Cl ClArith ClConsts ClMask.
-From ZK Require Import ClTies.
+From ZK Require Import ClTies ClSpok ClMasked.
+From Coq Require Import List. Import ListNotations.
 
 Theorem C19_response_quotient :
   forall r c x, (0 < c)%Z -> ((r + c * x) / c = x + r / c)%Z.
@@ -73,3 +74,26 @@ Check (C19_same_secret_response_pins_x :
   (0 < ss_chal p)%Z ->
   (x <= ss_d p / ss_chal p <= x + (two (b_l BP + ss_t BP) * b - 1) / ss_chal p)%Z).
 Print Assumptions C19_same_secret_response_pins_x.
+
+(* END TO END for the signature proof: every response about a hidden attribute is masked, for every list of hidden positions (any order,
+   repeated positions, positions beyond a machine word), given random_bits' contract (bit k - 1 of random_bits(k) is set) *)
+Theorem C19_nisp5_hidden_responses_masked :
+  forall CS sg ck pk bases msgs U ds p ds',
+  Forall bits_top ds ->
+  nisp5_gen CS sg ck pk bases msgs U ds = Ok (p, ds') ->
+  (321 <= lm CS + MASK)%Z -> (0 < sp_chal p < 2 ^ 256)%Z ->
+  length (sp_s5 p) = length U /\
+  forall k, (k < length U)%nat ->
+    (N.to_nat (nth k U 0%N) < length msgs)%nat /\
+    (2 ^ 64 <= nth k (sp_s5 p) 0 / sp_chal p - at_ msgs (nth k U 0%N))%Z.
+Proof. exact nisp5_hidden_responses_masked. Qed.
+Check (C19_nisp5_hidden_responses_masked :
+  forall CS sg ck pk bases msgs U ds p ds',
+  Forall bits_top ds ->
+  nisp5_gen CS sg ck pk bases msgs U ds = Ok (p, ds') ->
+  (321 <= lm CS + MASK)%Z -> (0 < sp_chal p < 2 ^ 256)%Z ->
+  length (sp_s5 p) = length U /\
+  forall k, (k < length U)%nat ->
+    (N.to_nat (nth k U 0%N) < length msgs)%nat /\
+    (2 ^ 64 <= nth k (sp_s5 p) 0 / sp_chal p - at_ msgs (nth k U 0%N))%Z).
+Print Assumptions C19_nisp5_hidden_responses_masked.
